@@ -19,6 +19,11 @@ CONSTANTS MaxFacts, MaxOps, MemoDepth,
 Vals   == {"i1", "f1", "s1", "bt", "st", "arr", "null", "z", "nz", "nan", "tiny", "i0"}
 XVals  == {"i1", "f1", "s1", "null", "z", "nz", "nan", "tiny", "i0", "none"}      \* values generated for field x
 YVals  == {"i1", "none"}
+(* overridable: the deep alpha-only configuration uses four x values and one y value *)
+Machines == {"alpha", "beta", "memo", "concl"}
+AlphaOnly == {"alpha"}
+XSmall == {"z", "nz", "i1", "none"}
+YOne == {"i1"}
 Eq(a, b) == IF a = "nan" \/ b = "nan" THEN FALSE
             ELSE IF {a, b} \subseteq {"z", "nz"} THEN TRUE ELSE a = b
 
@@ -80,7 +85,7 @@ CRemove(r) == /\ m = "concl" /\ added' = added \ {r} /\ UNCHANGED <<m, facts, in
 Required(g) == {r \in added : CEnabled(r) /\ CF[r] = g}
 
 Next == /\ nops' = nops + 1
-        /\ \/ \E x \in {"alpha", "beta", "memo", "concl"} : Choose(x)
+        /\ \/ \E x \in Machines : Choose(x)
            \/ \E x \in XVals, y \in YVals : AInsert(x, y)
            \/ \E f \in {"x", "y"} : ACreate(f) \/ ADrop(f)
            \/ \E i \in 1..5 : BAdd(i) \/ BRemove(i)
